@@ -25,6 +25,20 @@ class CtlProperty:
         return ctl.make_runner(self.cfg_for, self.oracle_cls, self.base or plumpy.Process, cls_for=self.cls_for,
                                world_cls=self.world_cls)(unit)
 
+    def with_slot_bound(self, bound: int, alphabet: Any = None) -> 'CtlProperty':
+        """The same property for the closure search: at most ``bound`` environment events between two loop callbacks
+        (the number of events in total is unlimited there), optionally over a reduced alphabet."""
+        inner = self.cfg_for
+
+        def cfg_for(unit: Any) -> ctl.Config:
+            cfg = inner(unit)
+            cfg.slot_bound = bound
+            if alphabet is not None:
+                cfg.alphabet = tuple(alphabet)
+            return cfg
+
+        return CtlProperty(self.pid, self.oracle_cls, cfg_for, self.base, self.cls_for, self.world_cls)
+
     def replay(self, doc: Dict[str, Any]) -> List[Dict[str, Any]]:
         from ..cli import to_tuple
         unit = to_tuple(doc['unit'])
